@@ -20,6 +20,12 @@ CLAIMED = {
             "and Huawei splitters and are compared with the reference tree.",
             "Trusted: mc/ref/offside.py; tabs count one column in both models; line/number/level frame locals excluded from the state (argued in the check).",
             "DESIGN.md §3 C05"),
+    "C06": ("bounded-exhaustive enumeration of (ACL text, forest) and (ACL pair, forest) through the real apply_acl/filter_config against a reference cover relation",
+            "For every ACL of the grammar and every forest up to 4-5 nodes over the ACL's row alphabet (plus a negated-row family): result "
+            "equals the reference filter, is an order-preserving subtree, idempotent, strict mode raises AclError naming the first uncovered "
+            "row iff the reference finds one; for ACL pairs the merged ACL passes everything either passes alone (one recorded known finding).",
+            "Trusted: mc/ref/acl.py and its syntactically stated unambiguous domain.",
+            "DESIGN.md §3 C06"),
     "C07": ("bounded-exhaustive enumeration of (pattern,row) pairs on the real compiler vs a reference token matcher",
             "Every pattern of the rule grammar up to 4 tokens is run against every row up to 5 words through the real "
             "compile_row_regexp/_make_reverse and compared with an independent token-walking matcher; every shipped rule "
@@ -33,6 +39,12 @@ CLAIMED = {
             "checks the final device state against an independent expectation, emptiness of the second diff/patch.",
             "Trusted: the reference device and rule-selection models (mc/ref/device.py, mc/ref/rb.py); universes bounded to <=36 (quick) / <=400 (thorough) configs per rulebook.",
             "DESIGN.md §3 C01"),
+    "C02": ("bounded-exhaustive enumeration of (ACL text or merged ACL pair, old, new) through the real compile_acl_text/_diff_and_patch; command paths judged by a reference ACL cover relation, effects by a reference device",
+            "Every ACL of a grammar (nesting, *, ~, %global, %cant_delete=0/1, interface default, merged generator ACLs) x all pairs of "
+            "small forests over the ACL's row alphabet: every command path must be ACL-covered level by level, uncovered rows of the "
+            "device must survive untouched, cant_delete rows must survive.",
+            "Trusted: mc/ref/acl.py cover relation (domain: unambiguous sibling rules), mc/ref/device.py, a fixed default-logic rulebook whose keys capture whole rows.",
+            "DESIGN.md §3 C02"),
     "C03": ("bounded-exhaustive enumeration of all (old,new) pairs of each rulebook's config universe through the real make_diff/strip_unchanged/formatter.diff/gen_pre_as_diff against a path-wise reference",
             "Every ordered pair of configs of every grammar rulebook is diffed by the real code; op exactness per path, both projections, "
             "UNCHANGED soundness, MOVED minimality in %ordered groups, self-diff emptiness and read-back of both textual renderings "
